@@ -1,6 +1,7 @@
 import Req.Driver.Proto
 import Req.Pool.Cancel
 import Req.Pool.CancelPool
+import Req.Pool.CancelPoolLane
 /-!
 Driver lanes of C08.
 
@@ -18,6 +19,9 @@ Driver lanes of C08.
   first, `w` = still waiting, `d` = done, `-` = empty queue), judged by `CancelPool.Sample.verdict`
   (`Props.C08Pool.sample_ok`: `ok` on every reachable model state): `ok | over-limit | stranded |
   handoff-lost`.
+* `c08pool <MaxIdleConns> <MaxIdleConnsPerHost> <MaxConnsPerHost> <DisableKeepAlives> <keys> <wants> <conns> <op,op,…>`
+  — the forced-schedule lane: composite pool calls (`CancelPoolLane.MOp`) replayed on the pool
+  model; answer = per op `<return value>/<state dump>`, joined with `;`.
 -/
 namespace Req.Driver.L.C08
 open Req.Proto Req.Cancel
@@ -232,8 +236,18 @@ def laneSnap : List String → String
     | _, _, _, _, _ => "bad-op"
   | _ => "bad-op"
 
+def lanePool : List String → String
+  | [mi, mih, mc, dk, nk, nw, nc, ops] =>
+    match mi.toNat?, mih.toInt?, mc.toInt?, bit dk, nk.toNat?, nw.toNat?, nc.toNat?,
+          (if ops == "-" then some [] else (ops.splitOn ",").mapM Req.Pool.CancelPoolLane.parseOp) with
+    | some maxIdle, some maxIdleHost, some maxConns, some dka, some nKeys, some nWants, some nConns, some l =>
+      ";".intercalate (Req.Pool.CancelPoolLane.runLane ⟨maxIdle, maxIdleHost, maxConns, dka⟩ nKeys nWants nConns {} l)
+    | _, _, _, _, _, _, _, _ => "bad-op"
+  | _ => "bad-op"
+
 def lanes : List (String × (List String → String)) := [
   ("c08snap", laneSnap),
+  ("c08pool", lanePool),
   ("c08maperr", laneMapErr),
   ("c08retry", laneRetry),
   ("c08life", laneLife)
